@@ -141,3 +141,315 @@ Proof.
   - apply Z.ltb_ge in E. destruct (n =? 0) eqn:E0; [apply Z.eqb_eq in E0; lia|].
     rewrite (Hge E). reflexivity.
 Qed.
+
+(* ---- iterators ---- *)
+Lemma istep_spec s : iok s ->
+  exists o s' ev, istep s = (o, s', ev) /\ iok s' /\
+    match o with
+    | Item x => iden s = x :: iden s' /\ (isize s' < isize s)%nat
+    | End => iden s = [] /\ iden s' = [] /\ (isize s' <= isize s)%nat
+    | _ => False
+    end.
+Proof.
+  intros Hok. destruct (istep s) as [[o s'] ev] eqn:E. exists o, s', ev.
+  split; [reflexivity|].
+  pose proof (inext_fuel_enough _ _ _ _ E) as Hno. unfold istep in E.
+  destruct (inext_contract (S (isize s))) as [Hz _].
+  destruct (Hz _ _ _ _ Hok E) as (Hok1 & Hp & _).
+  destruct (inext_size (S (isize s))) as [Hs _]. destruct (Hs _ _ _ _ E) as [Hd _].
+  split; [exact Hok1|]. destruct o as [x| | | |]; simpl in Hp.
+  - auto.
+  - destruct Hp as (H1 & H2 & _). auto.
+  - destruct Hp as [Hx _]. discriminate Hx.
+  - exact Hp.
+  - congruence.
+Qed.
+
+Lemma ireduce_spec {A} (f : A -> Z -> A) : forall n acc s,
+  iok s -> (isize s < n)%nat ->
+  exists s' ev, ireduce n f acc s = (Item (fold_left f (iden s) acc), s', ev).
+Proof.
+  induction n as [|n IH]; intros acc s Hok Hn; [lia|]. simpl.
+  destruct (istep_spec s Hok) as (o & s1 & ev1 & E & Hok1 & Hp). rewrite E.
+  destruct o as [x| | | |]; try (destruct Hp; fail).
+  - destruct Hp as [Hd Hs]. destruct (IH (f acc x) s1 Hok1 ltac:(lia)) as (s' & ev & E2).
+    rewrite E2. simpl. rewrite Hd. simpl. eauto.
+  - destruct Hp as (Hd & _). rewrite Hd. simpl. eauto.
+Qed.
+
+Lemma fold_snoc (l acc : list Z) : fold_left (fun out x => out ++ [x]) l acc = acc ++ l.
+Proof.
+  revert acc. induction l as [|x l IH]; intros acc; simpl; [symmetry; apply app_nil_r|].
+  rewrite IH, <- app_assoc. reflexivity.
+Qed.
+
+Lemma icollect_spec s : iok s ->
+  exists s' ev, icollect (ired_fuel s) s = (Item (iden s), s', ev).
+Proof.
+  intros Hok. unfold icollect, ired_fuel.
+  destruct (ireduce_spec (fun out x => out ++ [x]) (S (isize s)) [] s Hok ltac:(lia))
+    as (s' & ev & E).
+  rewrite E, fold_snoc. simpl. eauto.
+Qed.
+
+Lemma ilast_loop_spec n : 1 <= n -> forall k buf i s,
+  iok s -> (isize s < k)%nat -> 0 <= i -> zlen buf = n ->
+  exists s' ev,
+    ilast_loop k n buf i s = (Item (fold_left (ring_push n) (iden s) (buf, i)), s', ev).
+Proof.
+  intros Hn. induction k as [|k IH]; intros buf i s Hok Hk Hi Hlen; [lia|]. simpl.
+  destruct (istep_spec s Hok) as (o & s1 & ev1 & E & Hok1 & Hp). rewrite E.
+  destruct o as [x| | | |]; try (destruct Hp; fail).
+  - destruct Hp as [Hd Hs].
+    destruct (n =? 0) eqn:E0; [apply Z.eqb_eq in E0; lia|].
+    pose proof (Z.rem_bound_pos i n Hi ltac:(lia)) as Hb.
+    unfold zset. destruct ((Z.rem i n <? 0) || (zlen buf <=? Z.rem i n)) eqn:Eb.
+    { apply orb_true_iff in Eb. destruct Eb as [Eb|Eb];
+        [apply Z.ltb_lt in Eb|apply Z.leb_le in Eb]; lia. }
+    destruct (IH (upd buf (Z.to_nat (Z.rem i n)) x) (i + 1) s1 Hok1 ltac:(lia) ltac:(lia))
+      as (s' & ev & E2).
+    { unfold zlen in *. rewrite upd_length. exact Hlen. }
+    rewrite E2. simpl. rewrite Hd. simpl. unfold ring_push at 2. simpl. eauto.
+  - destruct Hp as (Hd & _). rewrite Hd. simpl. eauto.
+Qed.
+
+Lemma lastn_zero {A} (l : list A) : lastn 0 l = [].
+Proof. unfold lastn. rewrite Nat.sub_0_r. apply skipn_all. Qed.
+
+(* Last returns the last n items for EVERY n when the guard is there, for n >= 1 otherwise *)
+Lemma ilast_spec cfg n s : iok s -> (cfg_last_guard cfg = true \/ 1 <= n) ->
+  exists s' ev, ilast cfg (ired_fuel s) n s = (Item (lastn (Z.to_nat n) (iden s)), s', ev).
+Proof.
+  intros Hok Hg. unfold ilast, ired_fuel.
+  destruct (cfg_last_guard cfg && (n <=? 0)) eqn:Eg.
+  - apply andb_true_iff in Eg. destruct Eg as [_ En]. apply Z.leb_le in En.
+    destruct (ireduce_spec (fun (u : unit) _ => u) (S (isize s)) tt s Hok ltac:(lia))
+      as (s' & ev & E).
+    rewrite E. replace (Z.to_nat n) with O by lia. rewrite lastn_zero. eauto.
+  - assert (Hn : 1 <= n).
+    { destruct Hg as [Hg|Hg]; [|exact Hg]. rewrite Hg in Eg. simpl in Eg.
+      apply Z.leb_gt in Eg. lia. }
+    destruct (n <? 0) eqn:E0; [apply Z.ltb_lt in E0; lia|].
+    destruct (ilast_loop_spec n Hn (S (isize s)) (zrepeat 0 n) 0 s Hok ltac:(lia) ltac:(lia)
+                              ltac:(apply zlen_repeat; lia)) as (s' & ev & E).
+    rewrite E.
+    pose proof (ring_inv_fold n (iden s) Hn [] _ (ring_inv_init n Hn)) as Hinv. simpl in Hinv.
+    destruct (fold_left (ring_push n) (iden s) (zrepeat 0 n, 0)) as [buf i] eqn:Ef.
+    rewrite (last_finish_spec n (iden s) buf i Hn Hinv). eauto.
+Qed.
+
+Lemma ione_spec s : iok s ->
+  exists s' ev, ione s = (match iden s with [x] => Item [x] | _ => End end, s', ev).
+Proof.
+  intros Hok. unfold ione.
+  destruct (istep_spec s Hok) as (o & s1 & ev1 & E & Hok1 & Hp). rewrite E.
+  destruct o as [x| | | |]; try (destruct Hp; fail).
+  - destruct Hp as [Hd _]. rewrite Hd.
+    destruct (istep_spec s1 Hok1) as (o2 & s2 & ev2 & E2 & Hok2 & Hp2). rewrite E2.
+    destruct o2 as [y| | | |]; try (destruct Hp2; fail).
+    + destruct Hp2 as [Hd2 _]. rewrite Hd2. eauto.
+    + destruct Hp2 as (Hd2 & _). rewrite Hd2. eauto.
+  - destruct Hp as (Hd & _). rewrite Hd. eauto.
+Qed.
+
+(* ---- Equal ---- *)
+(* "the first item/end of b is the same as [ok], and b' is the rest" *)
+Definition head_is (ok : option Z) (b b' : ist) : Prop :=
+  match ok with
+  | Some x => iden b = x :: iden b'
+  | None => iden b = [] /\ iden b' = []
+  end.
+Definition head_differs (ok : option Z) (b : ist) : Prop :=
+  match ok with
+  | Some x => forall t, iden b <> x :: t
+  | None => iden b <> []
+  end.
+
+Lemma iequal_round_spec ok : forall others,
+  Forall iok others ->
+  exists o others' ev, iequal_round ok others = (o, others', ev) /\ Forall iok others' /\
+    match o with
+    | End => Forall2 (head_is ok) others others'
+    | Item b => b = false /\ Exists (head_differs ok) others
+    | _ => False
+    end.
+Proof.
+  induction others as [|b tl IH]; intros Hok; simpl.
+  - exists End, [], []. auto.
+  - inversion Hok as [|b0 tl0 Hb Htl]; subst.
+    destruct (istep_spec b Hb) as (ob & b' & evb & E & Hokb & Hp). rewrite E.
+    destruct (IH Htl) as (o2 & tl' & ev2 & E2 & Hok2 & Hp2). rewrite E2.
+    assert (Hcont : forall (Hh : head_is ok b b'),
+      exists o others' ev,
+        (o2, b' :: tl', evb ++ ev2) = (o, others', ev) /\ Forall iok others' /\
+        match o with
+        | End => Forall2 (head_is ok) (b :: tl) others'
+        | Item c => c = false /\ Exists (head_differs ok) (b :: tl)
+        | _ => False
+        end).
+    { intros Hh. exists o2, (b' :: tl'), (evb ++ ev2). split; [reflexivity|].
+      split; [constructor; assumption|].
+      destruct o2 as [c| | | |]; try (destruct Hp2; fail).
+      - destruct Hp2 as [Hc He]. split; [exact Hc|]. apply Exists_cons_tl. exact He.
+      - constructor; assumption. }
+    destruct ob as [y| | | |]; try (destruct Hp; fail).
+    + destruct Hp as [Hd _]. destruct ok as [x|].
+      * destruct (x =? y) eqn:Exy.
+        -- apply Z.eqb_eq in Exy. subst y. apply Hcont. exact Hd.
+        -- apply Z.eqb_neq in Exy. exists (Item false), (b' :: tl), evb.
+           split; [reflexivity|]. split; [constructor; assumption|]. split; [reflexivity|].
+           apply Exists_cons_hd. simpl. intros t Ht. rewrite Hd in Ht. congruence.
+      * exists (Item false), (b' :: tl), evb.
+        split; [reflexivity|]. split; [constructor; assumption|]. split; [reflexivity|].
+        apply Exists_cons_hd. simpl. rewrite Hd. discriminate.
+    + destruct Hp as (Hd & Hd' & _). destruct ok as [x|].
+      * exists (Item false), (b' :: tl), evb.
+        split; [reflexivity|]. split; [constructor; assumption|]. split; [reflexivity|].
+        apply Exists_cons_hd. simpl. rewrite Hd. discriminate.
+      * apply Hcont. simpl. auto.
+Qed.
+
+Lemma iequal_spec : forall k a others,
+  iok a -> Forall iok others -> (isize a < k)%nat ->
+  exists b st ev, iequal k a others = (Item b, st, ev) /\
+                  (b = true <-> Forall (fun q => iden q = iden a) others).
+Proof.
+  induction k as [|k IH]; intros a others Hoka Hoko Hk; [lia|]. simpl.
+  destruct (istep_spec a Hoka) as (oa & a' & eva & E & Hoka' & Hp). rewrite E.
+  destruct oa as [x| | | |]; try (destruct Hp; fail).
+  - destruct Hp as [Hd Hs].
+    destruct (iequal_round_spec (Some x) others Hoko) as (orr & others' & evr & Er & Hoko' & Hr).
+    rewrite Er. destruct orr as [c| | | |]; try (destruct Hr; fail).
+    + destruct Hr as [Hc He]. subst c. exists false, (a', others'), (eva ++ evr).
+      split; [reflexivity|]. split; [discriminate|]. intros Hall. exfalso.
+      apply Exists_exists in He. destruct He as (q & Hq & Hdq).
+      rewrite Forall_forall in Hall. specialize (Hall q Hq). simpl in Hdq.
+      apply (Hdq (iden a')). rewrite Hall. exact Hd.
+    + destruct (IH a' others' Hoka' Hoko' ltac:(lia)) as (b & st & ev & E2 & Hb).
+      rewrite E2. simpl. exists b, st, (((eva ++ evr)) ++ ev). split; [reflexivity|].
+      rewrite Hb. clear - Hr Hd. induction Hr as [|q q' tl tl' Hh Ht IHr].
+      * split; constructor.
+      * simpl in Hh. split; intros Hf; inversion Hf as [|z zs Hz Hzs]; subst; constructor.
+        -- rewrite Hh, Hz, Hd. reflexivity.
+        -- apply IHr. exact Hzs.
+        -- rewrite Hh, Hd in Hz. congruence.
+        -- apply IHr. exact Hzs.
+  - destruct Hp as (Hd & Hd' & _).
+    destruct (iequal_round_spec None others Hoko) as (orr & others' & evr & Er & Hoko' & Hr).
+    rewrite Er. destruct orr as [c| | | |]; try (destruct Hr; fail).
+    + destruct Hr as [Hc He]. subst c. exists false, (a', others'), (eva ++ evr).
+      split; [reflexivity|]. split; [discriminate|]. intros Hall. exfalso.
+      apply Exists_exists in He. destruct He as (q & Hq & Hdq).
+      rewrite Forall_forall in Hall. specialize (Hall q Hq). simpl in Hdq.
+      apply Hdq. rewrite Hall. exact Hd.
+    + exists true, (a', others'), (eva ++ evr). split; [reflexivity|].
+      split; [|reflexivity]. intros _. rewrite Hd. clear - Hr.
+      induction Hr as [|q q' tl tl' Hh Ht IHr]; constructor; [apply Hh|exact IHr].
+Qed.
+
+(* ---- run level, iterators ---- *)
+Section IterRuns.
+  Variables (cfg : config) (p : pz) (b : bool).
+  Hypothesis Hs : iter_supported_z p = true.
+  Hypothesis Hd : dom_z p.
+
+  Ltac init_facts Hs Hd :=
+    pose proof (proj1 iinit_ok _ Hd) as Hok; pose proof (proj1 iinit_den _ Hs) as Hden.
+
+  Theorem iter_collect_den :
+    results (run_iter_cfg cfg (inl p) (Reduce RCollect b)) = [RVal (den_z p)].
+  Proof.
+    init_facts Hs Hd. unfold results, run_iter_cfg, irun_reduce.
+    destruct (icollect_spec (iinit p) Hok) as (s' & ev & E). rewrite E, Hden. reflexivity.
+  Qed.
+
+  Theorem iter_sum_den :
+    results (run_iter_cfg cfg (inl p) (Reduce RSum b)) = [RVal [fold_left Z.add (den_z p) 0]].
+  Proof.
+    init_facts Hs Hd. unfold results, run_iter_cfg, irun_reduce.
+    destruct (ireduce_spec Z.add (ired_fuel (iinit p)) 0 (iinit p) Hok
+                           ltac:(unfold ired_fuel; lia)) as (s' & ev & E).
+    rewrite E, Hden. reflexivity.
+  Qed.
+
+  Theorem iter_one_den :
+    results (run_iter_cfg cfg (inl p) (Reduce ROne b))
+    = [match den_z p with [x] => RVal [x] | _ => REnd end].
+  Proof.
+    init_facts Hs Hd. unfold results, run_iter_cfg, irun_reduce.
+    destruct (ione_spec (iinit p) Hok) as (s' & ev & E). rewrite E, Hden.
+    destruct (den_z p) as [|x [|y t]]; reflexivity.
+  Qed.
+
+  Theorem iter_last_den n : (cfg_last_guard cfg = true \/ 1 <= n) ->
+    results (run_iter_cfg cfg (inl p) (Reduce (RLast n) b))
+    = [RVal (lastn (Z.to_nat n) (den_z p))].
+  Proof.
+    intros Hg. init_facts Hs Hd. unfold results, run_iter_cfg, irun_reduce.
+    destruct (ilast_spec cfg n (iinit p) Hok Hg) as (s' & ev & E). rewrite E, Hden. reflexivity.
+  Qed.
+
+  Theorem iter_equal_den others :
+    forallb iter_supported_z others = true -> Forall dom_z others ->
+    exists e : bool, results (run_iter_cfg cfg (inl p) (Reduce (REqual others) b))
+              = [RVal [if e then 1 else 0]] /\
+              (e = true <-> Forall (fun q => den_z q = den_z p) others).
+  Proof.
+    intros Hso Hdo. init_facts Hs Hd. unfold results, run_iter_cfg, irun_reduce.
+    assert (Hoko : Forall iok (map iinit others)).
+    { rewrite Forall_map. eapply Forall_impl; [|exact Hdo]. intros q Hq.
+      apply (proj1 iinit_ok). exact Hq. }
+    destruct (iequal_spec (ired_fuel (iinit p)) (iinit p) (map iinit others) Hok Hoko
+                          ltac:(unfold ired_fuel; lia)) as (e & st & ev & E & He).
+    rewrite E. exists e. split; [reflexivity|]. rewrite He, Hden, Forall_map.
+    rewrite forallb_forall in Hso. rewrite !Forall_forall.
+    split; intros H q Hq; specialize (H q Hq);
+      rewrite (proj1 iinit_den q (Hso q Hq)) in *; exact H.
+  Qed.
+
+  (* REqualSelf: always equal *)
+  Theorem iter_equal_self :
+    results (run_iter_cfg cfg (inl p) (Reduce REqualSelf b)) = [RVal [1]].
+  Proof.
+    init_facts Hs Hd. unfold results, run_iter_cfg, irun_reduce.
+    assert (Hshift : forall d,
+      (forall q, iden (iinit (pz_shift d q)) = iden (iinit q) /\
+                 (iok (iinit q) -> iok (iinit (pz_shift d q)))) /\
+      (forall q, ilden (ilinit (pl_shift d q)) = ilden (ilinit q) /\
+                 (ilok (ilinit q) -> ilok (ilinit (pl_shift d q))))).
+    { intros d. apply pipe_ind; simpl; intros;
+        try (destruct H as [H1 H2]; split; [rewrite ?H1; try reflexivity|auto]).
+      - auto.
+      - unfold pkden; simpl. rewrite H1. reflexivity.
+      - unfold fden; simpl. rewrite H1. reflexivity.
+      - split.
+        + unfold flden; simpl. rewrite !map_map. apply concat_map_ext.
+          eapply Forall_impl; [|exact H]. intros x [Hx _]. exact Hx.
+        + intros [Ha _]. split; [|exact I]. clear - H Ha.
+          induction H as [|x t [_ Hx] Ht IH]; simpl in *; [exact I|]. destruct Ha. auto.
+      - split.
+        + unfold jden. rewrite !map_map. apply concat_map_ext.
+          eapply Forall_impl; [|exact H]. intros x [Hx _]. exact Hx.
+        + intros Ha. clear - H Ha.
+          induction H as [|x t [_ Hx] Ht IH]; simpl in *; [exact I|]. destruct Ha. auto.
+      - unfold wden; simpl. rewrite H1. reflexivity.
+      - unfold fsden; simpl. rewrite H1. reflexivity.
+      - intros [Hn Hq]. auto.
+      - unfold rden, pkden; simpl. rewrite H1. reflexivity. }
+    destruct (proj1 (Hshift 1000%nat) p) as [Hsd Hso].
+    destruct (iequal_spec (ired_fuel (iinit p)) (iinit p) [iinit (pz_shift 1000 p)] Hok
+                          ltac:(constructor; auto) ltac:(unfold ired_fuel; lia))
+      as (e & st & ev & E & He).
+    rewrite E. assert (e = true) by (apply He; constructor; auto). subst e. reflexivity.
+  Qed.
+End IterRuns.
+
+(* iterator.Last with n = 0 before the repair: panics for every input *)
+Theorem iter_last_n0_refuted :
+  exists p, iter_supported_z p = true /\ dom_z p /\
+    results (run_iter_cfg original_cfg (inl p) (Reduce (RLast 0) true))
+    <> [RVal (lastn (Z.to_nat 0) (den_z p))].
+Proof.
+  exists (ZSrc 0 (SSlice [7; 8])). split; [reflexivity|]. split; [exact I|].
+  vm_compute. discriminate.
+Qed.
